@@ -256,7 +256,7 @@ def handle_result(ck, r, prop, what):
 
 def thorough(ck, prop, rng, aba_listed):
     # exhaustive 3 threads on 3 slots (no ABA possible with < 4 slots), then simulation of 4 slots/3 threads replayed
-    for (ns, nt, mo, rv, to) in [(3, 3, 1, 1, 1500), (4, 2, 2, 1, 1500)]:
+    for (ns, nt, mo, rv, to) in [(3, 3, 1, 1, 1500), (4, 2, 2, 1, 1500), (4, 3, 1, 1, 1500), (4, 3, 2, 1, 900)]:
         ck.log('TLC exhaustive: %d slots, %d threads, %d pops' % (ns, nt, mo))
         res = tlc.run('FreeList', 'mc.cfg', timeout=to, extra_files={'mc.cfg': cfg(ns, nt, mo, rv, True, 1)})
         if res.violation:
